@@ -348,11 +348,12 @@ PLAN["C19"] = {
 PLAN["C15"] = {
     "level": "model_checking",
     "explanation": "thread_names_stream::write checked by Kani for every named/unnamed pattern of 2 threads with symbolic tids: one entry per named "
-                   "thread, in order, pairing its id with its own name blob",
+                   "thread, in order, pairing its id with its own name blob; names of every UTF-8 / UTF-16 width through the real string writer by native enumeration (584 lists)",
     "verus": [],
     "kani": [{"tiers": Q, "jobs": 4, "timeout": 1200, "harnesses": K_THREAD_NAMES}],
     "native": [{"stem": "thread_names_stream", "filter": "", "tiers": Q, "tests": {
-        "c15_unnamed_thread_before_named_thread": H("B'", "thread_names_stream::write", "threads [unnamed 11, named 22 \"bc\"]")}},
+        "c15_unnamed_thread_before_named_thread": H("B'", "thread_names_stream::write", "threads [unnamed 11, named 22 \"bc\"]"),
+        "bprime_thread_names_of_every_short_list": H("B'", "thread_names_stream::write (with the real write_string_to_location)", "every list of 1..=3 threads over {unnamed} + 7 names (every UTF-8 width, 1 and 2 UTF-16 units per character, empty): 584 lists")}},
                {"stem": "ptrace_dumper", "filter": "bprime_enumerate", "tiers": Q, "tests": {
         "bprime_enumerate_threads_of_this_process": H("B'", "PtraceDumper::enumerate_threads (names as the kernel reports them)", "6 thread names: length 1..15, leading/inner whitespace, non-ASCII")}}],
     "trusted": ["names in the Kani harnesses are concrete (strings are a cost cliff for CBMC)",
